@@ -120,6 +120,19 @@ def run(c):
         two = [dict(s, consumers=2) for s in scripts if not s["block"] and sum(1 for st in s["steps"] if st["op"] == "offer") >= 2]
         c.rng.shuffle(two)
         scripts += two[:(40 if q else 400)]
+        # wide scripts: many requests in flight at once (the default num_consumers is 10), death, restart, drain -- with a death
+        # at EVERY storage-call boundary of the recovering incarnation too (level 1 of the enumeration below covers every
+        # incarnation a script starts).  Recovery code that treats the dispatched requests in bounded portions only shows with
+        # more requests in flight than a portion holds (seeded change C01-7: portions of 8).
+        St = lambda op, req="", outcome="": dict(op=op, req=req, outcome=outcome)
+        for n in ((9, 12) if q else (9, 12, 17, 20)):
+            rs = ["w%d" % i for i in range(1, n + 1)]
+            scripts.append(dict(cap=n + 2, block=False, retry=True, consumers=n,
+                                steps=[St("start")] + [St("offer", r) for r in rs] + [St("await", r) for r in rs] +
+                                      [St("crash"), St("start"), St("drain")]))
+            scripts.append(dict(cap=n + 2, block=False, retry=True, consumers=n,
+                                steps=[St("start")] + [St("offer", r) for r in rs] + [St("await", r) for r in rs] +
+                                      [St("shutdown")] + [St("release", r, "transient") for r in rs] + [St("await_shutdown"), St("start"), St("drain")]))
         c.log("generated %d distinct scripts" % len(scripts))
         todo = None
 
